@@ -44,3 +44,30 @@ func VfH_C09_parse() {
 	vfCover("rejected", err != nil)
 	vfReach("end")
 }
+
+// H-C09-glyph-simple: ParseGlyph on an arbitrary byte string that announces a simple glyph with 0..2
+// contours whose end points are below 3 (the count fields are case-split so that the flag/coordinate
+// decoding loops - flag repeats, short/long/same vectors - are explored to completion; everything else,
+// including the instruction length and all flags and coordinates, is arbitrary).
+func VfH_C09_glyph_simple() {
+	max := 20
+	if vfThorough() {
+		max = 26
+	}
+	nc := vfChoice("contours", 3)
+	n := vfInt("len", 10, max)
+	src := vfBytes("glyph", n, max)
+	vfAssume(src[0] == 0 && int(src[1]) == nc)
+	for i := 0; i < nc; i++ {
+		if 11+2*i < n {
+			vfAssume(src[10+2*i] == 0 && src[11+2*i] < 3)
+		}
+	}
+	_, read, err := ParseGlyph(src)
+	if err == nil {
+		vfAssert(0 <= read && read <= len(src), "ParseGlyph reports a read count outside its input")
+	}
+	vfCover("accepted", err == nil)
+	vfCover("rejected", err != nil)
+	vfReach("end")
+}
